@@ -1,4 +1,46 @@
-/- C10 — placeholder; theorems follow -/
+/-
+C10 — no operation leaks a lock; no interleaving deadlocks.
+-/
+import SC.Lemmas.Conc
 namespace SC.Props
-theorem C10_placeholder : True := trivial
+open SC.Conc
+
+/-- C10 (a): the lock bracket of an operation, as written in `_LoadAndSave` /
+`_BufferedLoadAndSave` (`__enter__` releases what it took when the load raises; `__exit__` saves
+in `try` and releases in `finally`): for buffered and unbuffered classes, with or without the
+initial load, and wherever the operation raises (load, body, save) or not at all — no lock is
+held afterwards. -/
+theorem C10_no_lock_leaked :
+    ∀ (buffered noLoad : Bool) (f : Bracket.Fail),
+      Bracket.held (Bracket.trace buffered noLoad f) [] = [] :=
+  Bracket.no_lock_leaked
+
+/-- C10 (b), lock order on the current brackets: the buffer lock is never requested while the
+file lock is held. -/
+theorem C10_bracket_lock_order :
+    ∀ (buffered noLoad : Bool) (f : Bracket.Fail),
+      Bracket.ordered (Bracket.trace buffered noLoad f) [] = true :=
+  Bracket.bracket_ordered
+
+/-- C10 (b), deadlock freedom: for ANY number of threads and locks, if every blocked thread
+waits for a lock ranked above all the locks it holds (buffer lock < file locks < class lock),
+then no set of threads waits for each other. -/
+theorem C10_no_deadlock (rank : Nat → Nat) (ths : List Locks.ThL) (ho : Locks.Ordered rank ths) :
+    ¬ Locks.Deadlocked ths :=
+  Locks.no_deadlock rank ths ho
+
+/-- the model exhibits the defect the property excludes: the bracket without the release in
+`__enter__` (the code before the fix) leaves the file lock held when the load raises. -/
+theorem C10_old_bracket_leaks : Bracket.held [Bracket.Ev.acq .file, .load] [] ≠ [] :=
+  Bracket.old_bracket_leaks
+
+/-- non-vacuity of the deadlock theorem's notions: a lock-order inversion IS a deadlock -/
+example : Locks.Deadlocked [⟨[0], some 1⟩, ⟨[1], some 0⟩] := by
+  refine ⟨⟨⟨[0], some 1⟩, by simp, rfl⟩, ?_⟩
+  intro th hth w hw
+  simp only [List.mem_cons, List.not_mem_nil, or_false] at hth
+  rcases hth with rfl | rfl
+  · simp at hw; subst hw; exact ⟨⟨[1], some 0⟩, by simp, by simp, rfl⟩
+  · simp at hw; subst hw; exact ⟨⟨[0], some 1⟩, by simp, by simp, rfl⟩
+
 end SC.Props
